@@ -1,6 +1,7 @@
 """C18: pointwise and cumulative effect series are well-formed for any experiment."""
 import json
 import math
+import os
 import numpy as np
 from scipy import stats
 import core
@@ -35,7 +36,11 @@ def check_frame(out, rng, fr, sess, pending):
   cond = en.conditioned(px, py)
   kl, ks, kdf = en.kerman(px, py, tx, ty) if len(px) >= 3 and np.std(px) > 0 else (None, None, None)
   nonmono = bool(ks is not None and any(ks[i + 1] < ks[i] for i in range(len(ks) - 1)))
-  facts = {'call': 'estimate_pointwise_and_cumulative_effect', 'metric': metric, 'tails': tails, 'level': level,
+  exact_fit = False
+  if len(px) >= 3 and np.std(px) > 0:
+    # pre-period fit exact to ten digits: the posterior is a point mass and bounds differ from estimates by rounding only
+    exact_fit = bool(math.sqrt(max(en.own_ols(px, py)[2], 0.0)) <= 1e-10 * max(1.0, float(np.abs(py).max())))
+  facts = {'call': 'estimate_pointwise_and_cumulative_effect', 'exact_fit': exact_fit, 'metric': metric, 'tails': tails, 'level': level,
            'tail_probability': tail_p, 'scale_nonmonotone': nonmono, 'cost_kind': fr['cost_kind']}
   m = SHARED.get('m') if fr.get('reuse_object') else None
   if m is None:
@@ -112,6 +117,10 @@ def run(out, tier, model_ok=True):
   n = 120 if tier == 'quick' else 4000
   sess = en.ModelSession() if model_ok else None
   pending = []
+  cdir = os.path.join(core.VERIF, 'corpus', 'C18')
+  for fn in sorted(os.listdir(cdir)) if os.path.isdir(cdir) else []:      # past failures run first
+    with open(os.path.join(cdir, fn)) as f:
+      check_frame(out, rng, json.load(f)['frame'], None, [])
   for i in range(n):
     fr = en.gen_frame(rng, cooldown=rng.choice([1, 2, 4, 0]), cost_kind=('variable' if i % 3 == 0 else 'fixed'), spike=(i % 10 == 3))
     if i % 10 == 4:
